@@ -9,7 +9,7 @@ Verdict policy (DESIGN.md 2.3): only TLC evaluating a property predicate of the
 specification on an observed behaviour can produce a violation.  Exit codes:
 0 = everything explored accepted, 1 = unlisted violation, 2 = machinery failure.
 """
-import os, sys, json, time, re, shutil, subprocess, tempfile, random, concurrent.futures
+import tempfile, os, sys, json, time, re, shutil, subprocess, tempfile, random, concurrent.futures
 
 VERIF = os.path.dirname(os.path.dirname(os.path.abspath(__file__)))
 SPEC = os.path.join(VERIF, "spec")
@@ -20,6 +20,17 @@ NCPU = int(os.environ.get("VERIF_NCPU", str(os.cpu_count() or 4)))
 
 class MachineryError(Exception):
     pass
+
+
+def out_root():
+    """where evidence and replay files go: /verif itself when the tree under test is /repo (the registered commands); a scratch
+    directory when the check is pointed at another tree through VERIF_REPO (seeded changes in scratch worktrees must not
+    overwrite the evidence of the real tree)"""
+    if os.path.realpath(REPO) == os.path.realpath("/repo"):
+        return VERIF
+    d = os.path.join(tempfile.gettempdir(), "verif_scratch_out_" + str(abs(hash(os.path.realpath(REPO))) % 10 ** 8))
+    os.makedirs(d, exist_ok=True)
+    return d
 
 
 def seed():
@@ -332,7 +343,7 @@ class Report:
             self.samples.append(s)
 
     def replay_file(self, payload):
-        d = os.path.join(VERIF, "replays", self.pid)
+        d = os.path.join(out_root(), "replays", self.pid)
         os.makedirs(d, exist_ok=True)
         self._nrep += 1
         p = os.path.join(d, f"{tier()}_{seed()}_{self._nrep}.json")
@@ -377,8 +388,8 @@ class Report:
         ev = dict(property_id=self.pid, tier=tier(), seed=seed(), level=self.level, coverage=cov,
                   assumptions=self.assumptions, wall_s=round(time.time() - self.t0, 1),
                   violations=len(self.violations))
-        os.makedirs(os.path.join(VERIF, "evidence"), exist_ok=True)
-        with open(os.path.join(VERIF, "evidence", f"{self.pid}.json"), "w") as f:
+        os.makedirs(os.path.join(out_root(), "evidence"), exist_ok=True)
+        with open(os.path.join(out_root(), "evidence", f"{self.pid}.json"), "w") as f:
             json.dump(ev, f, indent=1, default=str)
         print(f"[{self.pid}] tier={tier()} seed={seed()} states={self.states} traces={self.traces} "
               f"evaluations={cov['evaluations']} inconclusive={self.inconclusive} "
